@@ -12,21 +12,21 @@ NOTE = ('trusted base: the simulator (vsim/core.py scheduler, pipes, tape replay
 
 CHECKS = {
     'C01': ('worldsim', '5.1', 'layer-stack automaton replayed over the pid-tagged hook trace of seeded simulated runs with injected layer setUp/tearDown/NotImplementedError faults'),
-    'C02': ('worldsim', '5.2', 'verdict of run_internal vs. ground truth of injected faults (tests, layers, imports, child death, spawn failure, truncated report) under the simulated process layer, both modes'),
+    'C02': ('worldsim', '5.2', 'verdict of run_internal vs. ground truth of injected faults (tests, layers, imports, child death, spawn failure, truncated report) under the simulated process layer, both modes; slow children, transient pipe read errors, undecodable child output, line-level pre-emption of the worker threads'),
     'C04': ('worldsim', '5.4', 'exception injection at every test/layer phase in simulated runs; containment oracle on trace and output'),
     'C05': ('worldsim', '5.5', 'bracket automaton over testSetUp/testTearDown events of seeded simulated runs with injected outcome faults'),
-    'C03': ('worldsim', '5.3', 'executed multiset over all pids vs. reference selection model, for --list-tests / sequential / simulated -j N / resumed executions of one spec (exactly-once across processes)'),
-    'C06': ('procsim', '5.6', 'seeded and directed (all k! forced completion orders, barrier, stalls) schedules of the real resume_tests/spawn threads over tape-replaying child actors; block/ordering oracle, alive<=N invariant at every spawn, bounded-progress by structural hang detection'),
-    'C07': ('procsim', '5.7', 'channel fault injection on the simulated child processes (crash at every hook site incl. uncaught SystemExit/KeyboardInterrupt, truncation at every report offset, noise before/after the report, back-pressure, EINTR, spawn failures of several exception classes, a child that closes its pipes but lives on, a parent stdout that cannot encode, megabyte reports); delivered-report oracle, deadlock detection by the scheduler'),
+    'C03': ('worldsim', '5.3', 'executed multiset over all pids vs. reference selection model, for --list-tests / sequential / simulated -j N / resumed executions of one spec (exactly-once across processes), also with a failed spawn and with sys.argv changed by a test before layers are resumed'),
+    'C06': ('procsim', '5.6', 'seeded and directed (all k! forced completion orders, barrier, stalls) schedules of the real resume_tests/spawn threads over tape-replaying child actors; block/ordering oracle, alive<=N invariant at every spawn, bounded-progress by structural hang detection; line-level pre-emption of the parent\'s threads, failed spawns, slow parent stdout'),
+    'C07': ('procsim', '5.7', 'channel fault injection on the simulated child processes (crash at every hook site incl. uncaught SystemExit/KeyboardInterrupt, truncation at every report offset, noise before/after the report, back-pressure, EINTR, spawn failures of several exception classes, a child that closes its pipes but lives on, a parent stdout that cannot encode or fails a write, helper threads that cannot be started, megabyte reports, line-level pre-emption); delivered-report oracle, deadlock detection by the scheduler'),
     'C10': ('ordersim', '5.10', 'the nondeterminism sources the statement names (discovery order, layer-object creation order/addresses, --layer option order, PYTHONHASHSEED lanes) are permuted by the simulator around the real Runner(found_suites=...); order invariants on the simulated runs'),
-    'C11': ('worldsim', '5.11', 'simulated clocks with parent/child skew decide the default seed; order equality across list/sequential/-j N/resumed/--layer executions and reproduction from the reported seed'),
-    'C12': ('worldsim', '5.12', 'printed counts/lists vs. trace ground truth, and sequential vs. simulated -j N / resumed executions of the same spec'),
-    'C13': ('worldsim', '5.13', 'token attribution over the merged stdout/stderr log and stream identity monitored inside hooks, over seeded outcome histories'),
+    'C11': ('worldsim', '5.11', 'simulated clocks with parent/child skew decide the default seed; order equality across list/sequential/-j N/resumed/--layer executions and reproduction from the reported seed; foreign draws from the global random generator injected between the lines of the shuffle'),
+    'C12': ('worldsim', '5.12', 'printed counts/lists vs. trace ground truth, and sequential vs. simulated -j N / resumed executions of the same spec; ^C in a half-run layer, undecodable child output'),
+    'C13': ('worldsim', '5.13', 'token attribution over the merged stdout/stderr log and stream identity monitored inside hooks, over seeded outcome histories incl. tests that replace, close, stash and re-install the streams and nested in-process runs'),
     'C14': ('fssim', '5.14', 'find.os seam returns every directory in seeded enumeration orders over generated tmpfs trees; import-event history and listing order vs. reference discovery model'),
-    'C15': ('fssim', '5.15', 'find.os seam (enumeration order, unlink faults: concurrent removal / permission) around the real --list-tests run on generated tmpfs trees; before/after disk snapshot vs. orphan model'),
-    'C16': ('worldsim', '5.16', '"nothing starts after the first bad outcome" automaton per pid over seeded simulated -x runs'),
-    'C18': ('statesim', '5.18', 'interpreter-state snapshots around in-process runs whose test phase is ended by injected faults (exceptions escaping layer per-test hooks, KeyboardInterrupt, -x, -D/EndRun) under every subset of state-changing options'),
-    'C19': ('threadsim', '5.19', 'real leaked threads with simulator-allocated (recycled) thread idents behind threadsupport seams and seeded release points; leak-report oracle against the world\'s own thread table'),
+    'C15': ('fssim', '5.15', 'find.os seam (enumeration order, unlink faults: concurrent removal / permission, a concurrent writer creating source files mid-scan) around the real --list-tests run on generated tmpfs trees; before/after disk snapshot vs. orphan model'),
+    'C16': ('worldsim', '5.16', '"nothing starts after the first bad outcome" automaton per pid over seeded simulated -x runs (sequential, resumed with late child reports, failing tear-downs)'),
+    'C18': ('statesim', '5.18', 'interpreter-state snapshots around in-process runs whose test phase is ended by injected faults (exceptions escaping layer per-test hooks, KeyboardInterrupt, -x, -D/EndRun) under every subset of state-changing options; runs without a test phase, -j runs with failing children under line-level pre-emption, pre-existing trace function / gc state'),
+    'C19': ('threadsim', '5.19', 'real leaked threads with simulator-allocated (recycled) thread idents behind threadsupport seams and seeded release points; threads that end when the runner sleeps; leak-report oracle against the world\'s own thread table'),
 }
 
 NA = [
